@@ -637,7 +637,10 @@ class PositionArray(PosBase):
         Applies the converter function that is provides and copies all registered attributes to the new position 
         """
         attrs = {a: getattr(pos, a, None) for a in cls._attributes()}
-        return _SYSTEMS[cls.cls_name][cls.system](converter(pos), ellipsoid=pos.ellipsoid, **attrs)
+        converted = _SYSTEMS[cls.cls_name][cls.system](converter(pos), ellipsoid=pos.ellipsoid, **attrs)
+        # pos hands this array out as its conversion from now on: when the caller changes it in place, pos has to convert anew
+        converted.add_dependency(pos)
+        return converted
 
     def subset(self, idx, memo):
         """Create a subset """
@@ -1104,7 +1107,11 @@ class PositionDeltaArray(PosBase):
         Applies the converter function that is provides and copies all registered attributes to the new position delta 
         """
         attrs = {a: getattr(pos_delta, a, None) for a in cls._attributes()}
-        return _SYSTEMS[cls.cls_name][cls.system](converter(pos_delta), ref_pos=pos_delta.ref_pos, **attrs)
+        converted = _SYSTEMS[cls.cls_name][cls.system](converter(pos_delta), ref_pos=pos_delta.ref_pos, **attrs)
+        # pos_delta hands this array out as its conversion from now on: when the caller changes it in place, pos_delta
+        # (and, for a conversion over several systems, the array the first one was converted for) has to convert anew
+        converted.add_dependency(pos_delta)
+        return converted
 
     def subset(self, idx, memo):
         """Create a subset """
